@@ -24,7 +24,9 @@ RULE = (
     "(scalars via itob), length() == element count. Out-of-range array indices (len, len+1, 255, 256, 2^16, 2^63 as "
     "computed index) must make the run fail (or be rejected at build time for constant indices). non-trivial = the "
     "element is not the first and lies after a bool run or a dynamic member, or is reached through >= 2 steps; "
-    "out-of-range cases counted separately; distinct by (shape, value, path)."
+    "out-of-range cases counted separately; distinct by (shape, value, path). Enumerated family: static arrays of "
+    "126..130 elements (uint8/uint16/bool/uint64) whose every element is read into its own ABI value inside an "
+    "ABIReturnSubroutine with an output (more ABI values than a frame holds), versions 6/8/10 and frame pointers off."
 )
 ASSUMPTIONS = ["algosdk.abi is the ARC-4 reference codec", "vf/avm extract/getbit/substring semantics"]
 SHARDS = {"quick": 16, "thorough": 16}
@@ -113,11 +115,74 @@ def run_case(case, col=None):
     return out
 
 
+def run_wide(case, col=None):
+    """every element of a T[n] (n around 128) is read into its own ABI value inside an ABIReturnSubroutine with an
+    output - more ABI values than a frame can hold; the sum of the first two and last four values read must be the sum of
+    those components (reading all of them back would exceed finding F8's program length)"""
+    import pyteal as pt
+
+    n, elem, vals = case["n"], case["elem"], case["values"]
+    s = ["sa", elem, n] if case.get("static", True) else ["da", elem]
+    enc = S.encode(s, vals)
+    want = sum(int(vals[j]) for j in sorted({0, 1, n - 4, n - 3, n - 2, n - 1}))
+    out = []
+
+    def build():
+        def inner(output):
+            arr = S.pt_spec(pt, s).new_instance()
+            items = [S.pt_spec(pt, elem).new_instance() for _ in range(n)]
+            stmts = [arr.decode(pt.Txn.application_args[0])]
+            for i, it in enumerate(items):
+                stmts.append(arr[i].store_into(it))
+            picked = sorted({0, 1, n - 4, n - 3, n - 2, n - 1})
+            return pt.Seq(*stmts, output.set(pt.Add(*[items[j].get() for j in picked])))
+
+        g = {"pt": pt, "Expr": pt.Expr, "inner": inner}
+        exec(compile("def wide(*, output: pt.abi.Uint64) -> Expr:\n    return inner(output)\n", "<c07-wide>", "exec", dont_inherit=True), g)
+        f = pt.ABIReturnSubroutine(g["wide"])
+        res = pt.abi.Uint64()
+        return pt.Seq(f().store_into(res), pt.Log(pt.Itob(res.get())), pt.Int(1)), []
+
+    for cfg in case["configs"]:
+        kind, teal, _a = compile_prog(build, cfg["version"], cfg.get("fp"))
+        if kind == "rejected":
+            if "Too many slots" in str(teal):
+                continue
+            out.append(("access-rejected", "cfg=%s: reading all %d elements of %s was rejected: %s" % (cfg, n, S.sdk_str(s), str(teal)[:200])))
+            break
+        if kind == "crash":
+            if isinstance(teal, RecursionError):
+                continue
+            out.append(("build-crash:%s" % type(teal).__name__, "cfg=%s: %s" % (cfg, str(teal)[:200])))
+            break
+        iss = diff.static_issue(teal, cfg["version"])
+        if iss is not None:
+            out.append(("illegal-teal:%s" % iss.kind, "cfg=%s: program reading all %d elements of %s into ABI values is not legal TEAL: %s" % (cfg, n, S.sdk_str(s), iss)))
+            break
+        try:
+            r = run_prog(tp.parse(teal), _ctx(enc, []), budget=2_000_000)
+        except (BudgetExceeded, Unsupported) as e:
+            if col:
+                col.cls("discard:%s" % type(e).__name__)
+            continue
+        if col:
+            col.cls("executed:wide")
+        logs = [e[1] for e in r.events if e[0] == "log"]
+        if r.verdict == "fail" or not logs or logs[-1] != want.to_bytes(8, "big"):
+            out.append(("component", "cfg=%s: the %d elements of %s read into ABI values sum to %s, the components sum to %d (%s)" % (cfg, n, S.sdk_str(s), logs[-1].hex() if logs else None, want, r.panic_msg)))
+            break
+    return out
+
+
 def judge(case):
+    if case.get("kind") == "wide":
+        return run_wide(case)
     return run_case(json.loads(json.dumps(case)))
 
 
 def shrinks(case):
+    if case.get("kind") == "wide":
+        return []
     if len(case["configs"]) > 1:
         for cfg in case["configs"]:
             yield dict(case, configs=[cfg])
@@ -220,3 +285,18 @@ def shard(tier, seedv, k, n, col: Collector):
             col.sample({"type": S.sdk_str(case["shape"]), "value": case["value"], "steps": case["steps"], "final": case["final"], "oob": case.get("oob")})
 
     hyp_run(body, case_strategy(tier), N_EX[tier], seedv, key=lambda c: [c["shape"], c["value"], c["steps"], c["final"], c.get("oob")], col=col)
+    # enumerated: arrays of 126..130 elements, every element in its own ABI value inside an ABI routine with an output
+    idx = 0
+    for n_ in (126, 127, 128, 129, 130):
+        for elem in (["uint", 8], ["uint", 16], ["bool"], ["uint", 64]):
+            for version, fp in ((8, None), (10, None), (8, False), (6, None)):
+                idx += 1
+                if idx % n != k:
+                    continue
+                vals = [((7 * i + n_) % 251) if elem[0] == "uint" else bool((i * 5 + n_) % 3 == 0) for i in range(n_)]
+                case = {"kind": "wide", "n": n_, "elem": elem, "values": vals, "configs": [dict({"version": version}, **({"fp": fp} if fp is not None else {}))]}
+                col.case()
+                col.cls("wide-array:%d" % n_)
+                col.nontriv(sha(["wide", n_, elem, version, fp]))
+                for b, d in run_wide(case, col):
+                    col.fail(b, d, case)
